@@ -320,6 +320,10 @@ func genSendMany(g *hx.Gen) {
 }
 
 func gen(g *hx.Gen) {
+	for _, keep := range []int{0, 1} { // a real node reorganises; the transaction is / is not on the new branch
+		g.Emit("reset")
+		g.Emit("rgflow %d", keep)
+	}
 	for i := 0; i < g.N(60, 600); i++ {
 		genUtxo(g, g.R.Fork(uint64(i)))
 	}
